@@ -34,20 +34,24 @@ def value_for(opt, source):
     return source + "-" + opt[:3]
 
 
-def ini_value(v):
+# every spelling configparser documents for a boolean (a hand-edited user file), case-insensitively
+BOOL_SPELLINGS = [("true", "false"), ("yes", "no"), ("on", "off"), ("1", "0"), ("True", "False"), ("YES", "No"), ("On", "OFF")]
+
+
+def ini_value(v, sp=0):
     if isinstance(v, bool):
-        return "true" if v else "false"
+        return BOOL_SPELLINGS[sp][0 if v else 1]
     if isinstance(v, list):
         return ", ".join(v)
     return str(v).replace("%", "%%")
 
 
-def make_config(lib, usr):
-    """UserConfig layered like ofxget does: library file first, user file second (natively)"""
+def make_config(lib, usr, sp=0):
+    """UserConfig layered like ofxget does: library file first, user file second (natively); sp: spelling of booleans in the user file"""
     cfg = ofxget.UserConfig()
-    for d in (lib, usr):
+    for d, spd in ((lib, 0), (usr, sp)):
         if d:
-            cfg.read_string("[" + SERVER + "]\n" + "\n".join(f"{k} = {ini_value(v)}" for k, v in d.items()) + "\n")
+            cfg.read_string("[" + SERVER + "]\n" + "\n".join(f"{k} = {ini_value(v, spd)}" for k, v in d.items()) + "\n")
     return cfg
 
 
@@ -61,8 +65,11 @@ def h_precedence(ctx, opt):
     libd, usrd = {}, {}
     if lib:
         libd[opt] = value_for(opt, "lib")
+    usrv = value_for(opt, "usr")
+    if usr and opt in BOOL_OPTS:
+        usrv = ctx.bool("usr_value")
     if usr:
-        usrd[opt] = value_for(opt, "usr")
+        usrd[opt] = usrv
     if home:
         usrd["ofxhome"] = "424"
     cliv = None
@@ -76,12 +83,13 @@ def h_precedence(ctx, opt):
         looked.append(id_)
         return Obj(url=value_for("url", "home"), org=value_for("org", "home"), fid=value_for("fid", "home"), brokerid=value_for("brokerid", "home")) if home else None
     ctx.stub(ofxhome, "lookup", lookup)
-    cfg = make_config(libd, usrd)
+    sp = ctx.choice("bool_spelling", list(range(len(BOOL_SPELLINGS)))) if (opt in BOOL_OPTS and usr) else 0
+    cfg = make_config(libd, usrd, sp)
     merged = ofxget.merge_config(ns, cfg)
     if cli:
         want = cliv
     elif usr:
-        want = value_for(opt, "usr")
+        want = usrv
     elif lib:
         want = value_for(opt, "lib")
     elif home:
